@@ -35,6 +35,7 @@ func TestVerif_C05(t *testing.T) {
 		vfC05NameReuse(rec, ep)
 	}
 	vfC05MntSpellings(rec)
+	vfC05ListingAtLimit(rec)
 }
 
 // vfC05MntSpellings: MNT is the one procedure that takes a free-form path. While the handle of a
@@ -895,6 +896,74 @@ func vfC06ListingPages(rec *evid.Rec) {
 				rec.Violate("C06/handler/mount-handle-serves-another-object/after-a-listing", fmt.Sprintf("GETATTR through the mount handle after listing %d entries: %+v", len(pairs), g), desc)
 			}
 			rec.Distinct(fmt.Sprintf("listing-pages|variant=%d|maxcount=%d|pages=%d|pairs=%d|wrong=%d", vi, maxcount, pages, len(pairs), wrong))
+			srv.Close()
+		}
+	}
+}
+
+// vfC05ListingAtLimit: the table is at its limit and ids are being recycled; a directory is listed
+// with READDIRPLUS in pages cut short by maxcount. The handle of the LAST entry of every page is the
+// most recently issued one (nothing was allocated after it that the client was told about), so it
+// must resolve in the very next request - and, when the table has room for the whole page, so must
+// every other handle of that page.
+func vfC05ListingAtLimit(rec *evid.Rec) {
+	for _, max := range []int{6, 10, 25} {
+		for _, maxcount := range []uint32{700, 1300} {
+			fs := refs.New()
+			fs.PlantDir("/big", 0777, 0, 0)
+			for i := 0; i < 40; i++ {
+				fs.PlantFile(fmt.Sprintf("/big/f%02d", i), []byte("x"), 0666, 0, 0)
+			}
+			srv, err := vfNewSrv(fs, ExportOptions{AttrCacheTimeout: 1})
+			if err != nil {
+				rec.Infra(err.Error())
+				return
+			}
+			vfSetMaxHandles(srv.nfs, max)
+			c := srv.client()
+			root, _ := c.mnt("/")
+			dl, _ := c.lookup(root, "big")
+			if dl == nil || dl.Status != 0 {
+				rec.Infra("lookup big")
+				srv.Close()
+				return
+			}
+			cookie, pages, dead := uint64(0), 0, 0
+			for pages < 100 {
+				// the directory handle itself may have been pushed out by the previous page: ask again
+				dl, _ = c.lookup(root, "big")
+				if dl == nil || dl.Status != 0 {
+					root, _ = c.mnt("/")
+					dl, _ = c.lookup(root, "big")
+					if dl == nil || dl.Status != 0 {
+						break
+					}
+				}
+				r, _ := c.readdirplus(vfFH(dl.FH), cookie, maxcount, maxcount)
+				if r == nil || r.Status != 0 || len(r.Entries) == 0 {
+					break
+				}
+				pages++
+				var lastName string
+				var lastH uint64
+				for _, e := range r.Entries {
+					cookie = e.Cookie
+					if e.FHPresent && e.Name != "." && e.Name != ".." {
+						lastName, lastH = e.Name, vfFH(e.FH)
+					}
+				}
+				rec.Eval(1)
+				if lastName != "" && !r.EOF {
+					if g, _ := c.getattr(lastH); g == nil || g.Status != 0 {
+						dead++
+						rec.Violate("C05/handle-dead-in-the-next-request/issued-by=READDIRPLUS/last-entry-of-a-page-cut-short", fmt.Sprintf("table limit %d, page %d (maxcount %d, %d entries, more follow): GETATTR through the handle %d just returned for %q answers status %d", max, pages, maxcount, len(r.Entries), lastH, lastName, vfSt(g)), map[string]any{"max": max, "maxcount": maxcount})
+					}
+				}
+				if r.EOF {
+					break
+				}
+			}
+			rec.Distinct(fmt.Sprintf("listing-at-limit|max=%d|maxcount=%d|pages=%d|dead=%d", max, maxcount, pages, dead))
 			srv.Close()
 		}
 	}
